@@ -158,6 +158,8 @@ Example C01_program_nonvacuous :
                                (SBlock [SRepeat (LCount (RLit (LInt 2))) (SBlock [SIf (RExpr (EBin BGt (EVar "total") (ELit (LInt 0)))) (SReturn (Some (RVar "cand"))) None; SPrint (Some (RVar "cand"))])]);
                        SReturn (Some (RLit (LStr "nobody")))]);
             SDefineRoutine "up" ["m"] (SBlock [SCall "down" [RVar "m"] false; SAssign "m" (RLit (LInt 99))]);
+            SDefineRoutine "sq" ["n"] (SBlock [SIf (RExpr (EBin BLt (EVar "n") (ELit (LInt 0)))) (SReturn (Some (RLit (LInt 0)))) (Some (SReturn (Some (RExpr (EBin BMul (EVar "n") (EVar "n"))))))]);
+            SDefineRoutine "pick" ["g2"] (SBlock [SPrintln (Some (RCall "sq" [RLit (LInt 3)])); SReturn (Some (RCall "first_in" [RVar "g2"]))]);
             SDefineMacro "turn" (MLit (LInt 120));
             SDefineMacro "lamp" (MLit (LStr "b"));
             SAssign "total" (RLit (LInt 0));
@@ -183,6 +185,8 @@ Example C01_program_nonvacuous :
             SRepeat (LLocations "q" (Some (WCycle "h" None))) (SBlock [SReg R_HUE (RVar "h"); SSet (OpList [Target TLocation (NVar "q")]); SCall "down" [RLit (LInt 1)] false]);
             SAssign "total" (RLit (LInt 5));
             SCall "first_in" [RLit (LStr "g")] false;
+            SAssign "who" (RCall "pick" [RLit (LStr "g")]); SPrintln (Some (RVar "who"));
+            SReg R_HUE (RCall "sq" [RVar "total"]); SPrint (Some (RCall "sq" [RExpr (EBin BSub (EVar "total") (ELit (LInt 7)))]));
             SPrintln (Some (RVar "total"))] in
   let w := [mkLight "a" "g" "l" KPlain [0; 0; 0; 0]; mkLight "" "g" "m" KPlain [0; 0; 0; 0]; mkLight "c" "" "l" KPlain [0; 0; 0; 0]; mkLight "b" "h" "l" KPlain [0; 0; 0; 0]] in
   Forall (top_stmt_ok (fst (collect p [] [])) (snd (collect p [] []))) p /\ NoDup (map fst (defs_of p)) /\
